@@ -118,12 +118,13 @@ BATTERY = [
 ]
 
 CFG = {
+    # max_depth counts the seed transition: 5 = every history of up to 4 operations is expanded ... (5 operations are reached and judged)
     'quick': {
-        'profiles': CUSTOM, 'removable_builtin': False, 'cap': 2, 'max_depth': 12, 'pairs': 'ascending+P6P5',
-        'modes': ['copy', 'shared'], 'expand_defaults': [None, 'C2', 'P2', ['C2', 'P2']],
+        'profiles': CUSTOM, 'removable_builtin': False, 'cap': 2, 'max_depth': 5, 'pairs': 'macro-profiles-ascending+P6P5',
+        'modes': ['copy', 'shared'], 'expand_defaults': [None, 'P2'],
     },
     'thorough': {
-        'profiles': CUSTOM, 'removable_builtin': True, 'cap': 3, 'max_depth': 14, 'pairs': 'ordered',
+        'profiles': CUSTOM, 'removable_builtin': True, 'cap': 3, 'max_depth': 7, 'pairs': 'ordered',
         'modes': ['copy', 'shared'], 'expand_defaults': [None, 'C2', 'P2', ['C2', 'P2']],
     },
 }
@@ -298,38 +299,47 @@ def _pat(v):
 def internal_digest(w):
     """over-fine dump of everything the registry keeps (private attributes are read for the key only, never judged)"""
     p = w.p
-    h = hashlib.blake2b(digest_size=12)
-
-    def put(*xs):
-        for x in xs:
-            h.update(str(x).encode('utf-8', 'surrogatepass'))
-            h.update(b'\x00')
-        h.update(b'\x01')
-
-    put('names', *getattr(p, '_profileNames', ()))
-    put('default', repr(getattr(p, '_defaultProfiles', None)))
-    put('known', *getattr(p, '_knownNames', ()))
+    parts = []
+    put = parts.append
+    put('names')
+    parts.extend(getattr(p, '_profileNames', ()))
+    put('default')
+    put(repr(getattr(p, '_defaultProfiles', None)))
+    put('known')
+    parts.extend(getattr(p, '_knownNames', ()))
+    put('macros')
     for k, v in sorted(getattr(p, '_usedMacros', {}).items()):
-        put('macro', k, v)
+        put(k)
+        put(v)
     for prof, props in getattr(p, '_profilesProperties', {}).items():
-        put('profile', prof)
+        put('\x01profile')
+        put(prof)
         for k, v in sorted(props.items()):
-            put(k, _pat(v))
+            put(k)
+            put(_pat(v))
     for prof, d in getattr(p, '_rawProfiles', {}).items():
-        put('raw', prof)
+        put('\x01raw')
+        put(prof)
         for k, v in sorted(d.get('properties', {}).items()):
-            put(k, _pat(v))
+            put(k)
+            put(_pat(v))
+        put('\x01rawmacros')
         for k, v in sorted(d.get('macros', {}).items()):
-            put('m', k, v)
-    put('mode', w.mode)
+            put(k)
+            put(v)
+    put('\x01mode')
+    put(w.mode)
     if w.mode == 'shared':
         for a, (props, macros) in sorted(w.defs.items()):
-            put('def', a)
+            put('\x01def')
+            put(a)
             for k, v in sorted(props.items()):
-                put(k, _pat(v))
+                put(k)
+                put(_pat(v))
             for k, v in sorted(macros.items()):
-                put('m', k, v)
-    return h.hexdigest()
+                put(k)
+                put(v)
+    return hashlib.blake2b('\x00'.join(map(str, parts)).encode('utf-8', 'surrogatepass'), digest_size=12).hexdigest()
 
 
 def state_key(w, obs):
@@ -442,7 +452,7 @@ def _judge_vwp(reg, obs_vwp, base_val, D, model_ok, clause, out, clauses):
         out.append(Finding(clause, 'reported-profile-wrong' + tag, 'an accepting profile / sorted defining profiles', dp[:6]))
 
 
-def judge_state(w, obs, clauses):
+def judge_state(w, obs, clauses, with_contents=True):
     out = []
     reg = registry(w.seq)
     # -- C14.valid_iff ----------------------------------------------------------------
@@ -478,7 +488,7 @@ def judge_state(w, obs, clauses):
         clauses['C14.defaults'] += 1
         _judge_vwp(reg, obs['vwp'], obs['val'] if not e else want, w.D, model_ok, 'C14.defaults', out, clauses)
     # -- C14.contents ------------------------------------------------------------------
-    can = canonical_obs(w.seq, w.D)
+    can = canonical_obs(w.seq, w.D) if with_contents else None
     if can is not None:
         clauses['C14.contents'] += 1
         if can != obs:
@@ -585,14 +595,18 @@ def operations(w, tier):
         ops.append(['add', a])
     for a in addable:
         ops.append(['addmany', [a]])
-    if c['pairs'] == 'ordered':
+    if w.mode == 'shared':
+        # the shared-dictionaries half of the search is about add / remove / re-add of the same dictionary objects
+        pairs = []
+    elif c['pairs'] == 'ordered':
         pairs = list(itertools.permutations(free, 2))
     else:
-        pairs = list(itertools.combinations(free, 2)) + ([('P6', 'P5')] if 'P5' in free and 'P6' in free else [])
+        m = [a for a in free if a in WITH_MACROS]
+        pairs = list(itertools.combinations(m, 2)) + ([('P6', 'P5')] if 'P5' in free and 'P6' in free else [])
     if room >= 2:
         for a, b in pairs:
             ops.append(['addmany', [a, b]])
-    if b_free and room >= 1:
+    if b_free and room >= 1 and w.mode != 'shared':
         for a in free:
             ops.append(['addmany', [a, 'B']])
             ops.append(['addmany', ['B', a]])
@@ -601,7 +615,7 @@ def operations(w, tier):
     if c['removable_builtin'] and C3CN in w.seq:
         ops.append(['remove', 'B'])
     ops.append(['removeall'])
-    for v in c['expand_defaults']:
+    for v in c['expand_defaults'] if w.mode != 'shared' else [None]:
         if _dnames(v) != w.D and all(n in w.seq for n in (_dnames(v) or ())):
             ops.append(['default', v])
     return ops
@@ -637,7 +651,7 @@ def _prov(res, f, case):
 
 
 def _record_state(res, w, obs, history):
-    found = judge_state(w, obs, res.clauses)
+    found = judge_state(w, obs, res.clauses, with_contents=False)  # C14.contents: see _note_state / run
     res.validated += 1
     for f in found:
         _prov(res, f, {'kind': 'state', 'history': history})
@@ -659,8 +673,15 @@ def _seeds(res, tier):
 def _note_state(res, w, obs, h):
     oh = h64(obs)
     res.outcomes.add(oh)
-    res.sets['contents'].add(hhex(w.contents()))
-    res.sets['contents_x_observation'].add(hhex([w.contents(), oh]))
+    ch = hhex(w.contents())
+    res.clauses['C14.contents'] += 1
+    res.sets['contents'].add(ch)
+    res.sets['contents_x_observation'].add((ch, oh))
+    # smallest history per (contents, observation) of this batch; the parent compares the groups (C14.contents)
+    reps = res.__dict__.setdefault('_reps', {})
+    rank = (len(h), jdump(h))
+    if (ch, oh) not in reps or rank < reps[(ch, oh)]:
+        reps[(ch, oh)] = rank
     res.sets['verdict_vectors'].add(h64([obs['val'], obs['vwp']]))
     res.maxima['profiles_registered'] = max(res.maxima.get('profiles_registered', 0), len(w.seq))
     res.maxima['history_length'] = max(res.maxima.get('history_length', 0), len(h) - 1)
@@ -770,6 +791,8 @@ def expand(batch, tier, seed):
                 _seeds(res, tier)
             else:
                 _expand_state(res, h, tier)
+    for (ch, oh), rank in res.__dict__.pop('_reps', {}).items():
+        res.sets['~reps'].add((ch, oh, rank[0], rank[1]))
     return res
 
 
@@ -877,6 +900,14 @@ def minimise(case, tier, clause, symptom):
                 break
         if changed:
             continue
+        # two operations at once (an add and its remove can only go together)
+        for i, j in itertools.combinations(range(1, len(h)), 2):
+            c = variant(history=[op for k, op in enumerate(h) if k not in (i, j)])
+            if ok(c):
+                case, changed = c, True
+                break
+        if changed:
+            continue
         for i in range(1, len(h)):
             op = h[i]
             cands = []
@@ -935,8 +966,21 @@ def _final(res, tier, case, f):
 def finalize(payload, tier, seed):
     guard.pristine()
     res = Result(seed)
-    case, clause, symptom, count = payload
-    with guard.watchdog(600):
+    with guard.watchdog(900):
+        if payload[0] == 'contents':
+            # one representative history per observation that was seen for the same contents: at least one of them
+            # differs from the direct construction of these contents
+            n = 0
+            for h in payload[1]:
+                case = {'kind': 'state', 'history': h}
+                for f in judge_case(case, tier):
+                    if f.clause == 'C14.contents':
+                        n += 1
+                        _final(res, tier, case, f)
+            if not n:
+                res.error(f'contents seen with {len(payload[1])} observations, but none differs from the direct construction: {jdump(payload[1])[:300]}')
+            return res
+        _, case, clause, symptom, count = payload
         found = [f for f in judge_case(case, tier) if f.clause == clause and f.symptom == symptom]
         if not found:
             res.error(f'violation {clause}|{symptom} of {jdump(case)} does not reproduce when the case is re-run alone')
@@ -961,23 +1005,28 @@ def run(ctx):
     c = CFG[ctx.tier]
     total = explore.bfs(ctx, 'expand', max_depth=c['max_depth'], batch=6)
     left = total.counters.get('frontier_states_left_unexpanded_at_depth_bound', 0)
-    total.counters['closure_reached'] = 0 if left else 1
-    if left:
-        total.error(f'the search did not close under cap={c["cap"]} within depth {c["max_depth"]}: {left} states left unexpanded')
-    # the differential clause, pairwise form: contents that were seen with more than one observation
-    n_contents = len(total.sets['contents'])
-    n_pairs = len(total.sets['contents_x_observation'])
-    total.counters['contents_seen_with_more_than_one_observation_at_least'] = n_pairs - n_contents
+    total.counters['closure_reached_under_cap'] = 0 if left else 1
+    # C14.contents, pairwise form: every contents (ordered profiles, defaultProfiles) must have been seen with ONE observation
+    reps = total.sets.pop('~reps', set())
+    groups = {}
+    for ch, oh, n, hj in reps:
+        g = groups.setdefault(ch, {})
+        if oh not in g or (n, hj) < g[oh]:
+            g[oh] = (n, hj)
+    conflicts = {ch: g for ch, g in groups.items() if len(g) > 1}
+    total.counters['contents_seen_with_more_than_one_observation'] = len(conflicts)
+    total.counters['contents_compared_pairwise'] = len(groups)
+    import json
+    payloads = []
+    for ch in sorted(conflicts):
+        payloads.append(['contents', [json.loads(hj) for _, hj in sorted(conflicts[ch].values())]])
     prov, counts = total.violations, total.violation_counts
     total.violations, total.violation_counts = {}, type(counts)()
-    if n_pairs > n_contents and not any(v['clause'] == 'C14.contents' for v in prov.values()):
-        total.error('some contents were observed with two different observations but C14.contents recorded nothing')
-    payloads = []
     for full in sorted(prov):
         v = prov[full]
         case = {k: x for k, x in v['case'].items() if not k.startswith('_')}
-        payloads.append([case, v['clause'], v['case']['_symptom'], counts[full]])
-    total.counters['provisional_violation_groups'] = len(payloads)
+        payloads.append(['case', case, v['clause'], v['case']['_symptom'], counts[full]])
+    total.counters['violation_groups_minimised'] = len(payloads)
     for r in ctx.map('finalize', payloads):
         total.merge(r)
     return total
